@@ -33,6 +33,7 @@ fn main() {
         "pos-replay" => posx::cmd_replay(rest),
         "squash-replay" => squashx::cmd_replay(rest),
         "arena-replay" => arenax::cmd_replay(rest),
+        "builder-replay" => arenax::cmd_builder(rest),
         "lib-dump" => detx::cmd_dump(rest),
         "lib-search" => detx::cmd_search(rest),
         "total-run" => totalx::cmd_run(rest),
